@@ -35,6 +35,9 @@ def main() -> int:
 
     # 1. translator / generated files, build, lint, assumptions ---------------
     try:
+        from . import gen_all
+        for name, msg in gen_all.regenerate(strict=False):
+            ctx.notes.append(f"translator {name} did not regenerate its file: {msg}")
         if hasattr(mod, "pre_build"):
             mod.pre_build(ctx)
     except core.TranslatorAbort as e:  # source no longer in the handled subset: broken tie
